@@ -42,8 +42,9 @@ RTOL = 1e-9
 
 
 class World:
-    def __init__(self, symbolic, ctx=None, values=None):
+    def __init__(self, symbolic, ctx=None, values=None, int_arrays=False):
         self.sym = symbolic
+        self.int_arrays = int_arrays and not symbolic  # concrete mode only: arrays of an integer dtype (dtype shadow)
         self.ctx = ctx
         self.values = values or {}
         self.inputs = {}  # name -> z3 const (symbolic) / float (concrete)
@@ -85,6 +86,12 @@ class World:
             if default is not None:
                 d = default(idx) if callable(default) else default
             a[idx] = self.real(nm, d)
+        if self.int_arrays and a.size:
+            # whole numbers of mixed sign in an integer dtype: what a user gets from counts, np.arange or a CSV of integers
+            ints = np.array([(3 + 2 * k) * (-1 if k % 4 == 3 else 1) for k in range(a.size)], dtype=np.int64).reshape(shape)
+            for idx in np.ndindex(*shape):
+                self.inputs[name + "".join(f"_{i}" for i in idx)] = Fraction(int(ints[idx]))
+            return ints
         return a.view(SymArr) if self.sym else a
 
     def boolean(self, name, default=False):
